@@ -259,3 +259,38 @@ def static_samplers_made_from_one_sampler_are_independent(S):
     a2 = S.method(s1, "sample_points")
     S.ensure("second-use-of-the-first-returns-its-cached-set-whatever-the-second-did", a2 is a1 and len(inner.calls) == 2)
     S.ensure("use-counters-are-separate", zint(S.getattr(s1, "counter")) == 1 and zint(S.getattr(s2, "counter")) == 0)
+
+
+for _prop in ("C02", "C01"):
+    def _adaptive_rows(S, _prop=_prop):
+        """adaptive samplers with K parameter rows (the form a condition with parameters uses them in): after the first
+        call AND after a call with a loss tensor the result has exactly n rows per parameter row, grouped by parameter
+        row, row (k, j) carries parameter row k unchanged (C02) and lies in the domain at parameter row k (C01) --
+        whether it was retained or freshly drawn"""
+        thr = S.cfg == "threshold"
+        dom = abstract_domain(S, "D", S.new(R2, "x"), {"t": 1})
+        n, K = S.int("n", 1), S.int("K", 1)
+        Tt = S.tensor("tt", [K, 1])
+        params = S.new(POINTS, Tt, S.new(R1, "t"))
+        smp = S.new(ATS, dom.obj, S.real("ratio"), n_points=n) if thr else S.new(ARS, dom.obj, n_points=n)
+        first = S.method(smp, "sample_points", None, params)
+        loss = S.tensor("loss", [S.I.binop(__import__("ast").Mult(), K, n)])
+        second = S.method(smp, "sample_points", loss, params)
+        for tag, pts in (("first-call", first), ("call-with-a-loss", second)):
+            t = pts.f["_t"].val
+            ok = t.rank == 2 and t.shape[1].concrete() == 3
+            S.ensure(f"{tag}:columns-of-domain-and-parameter-space", ok)
+            if not ok:
+                return
+            S.ensure(f"{tag}:exactly-n-rows-per-parameter-row", t.shape[0].size_term() == zint(K) * zint(n))
+            grouped = len(t.shape[0].factors) == 2 and z3.eq(zint(t.shape[0].factors[0]), zint(K))
+            S.ensure(f"{tag}:rows-grouped-by-parameter-row", grouped)
+            if not grouped:
+                return
+            inst = lambda q: S.schema_instances([q[0]])
+            if _prop == "C02":
+                S.forall(f"{tag}:row-carries-its-parameter-row-unchanged", pts.f["_t"], lambda q, t=t: zreal(t.at([q[0], (2,)])) == zreal(Tt.val.at([(q[0][0],), ()])), extra_hyps=inst)
+            else:
+                S.forall(f"{tag}:row-in-the-domain-at-its-own-parameter-row", pts.f["_t"], lambda q, t=t: dom.in_pred([zreal(t.at([q[0], (c,)])) for c in range(2)], [zreal(Tt.val.at([(q[0][0],), ()]))]), extra_hyps=inst)
+    _adaptive_rows.__name__ = "adaptive_samplers_keep_the_rows_grouped_by_parameter_row"
+    scenario(_prop, [ATS + ".sample_points", ARS + ".sample_points"], configs=["threshold", "random"])(_adaptive_rows)
